@@ -135,6 +135,13 @@ type Obs struct {
 	LastMap    *Row     `json:"last_map"`
 	TakeMap    *Row     `json:"take_map"`
 	Errs       []string `json:"errs"`
+	// Count against Find under a Select of columns (-1 = not run: chain has limit / offset)
+	SelCount int64 `json:"sel_count"`
+	SelFind  int64 `json:"sel_find"`
+	SelMaps  int64 `json:"sel_maps"`
+	// composite-key table and the single-record finders into destinations carrying a key
+	CKRows   [][3]int64 `json:"ck_rows"`   // a, b, v
+	CKProbes [][5]int64 `json:"ck_probes"` // finder (0 first 1 take 2 last), a, b, found (0/1; 2 = another error), v
 }
 
 func chain(db *gorm.DB, in Input) *gorm.DB {
@@ -409,6 +416,7 @@ func run(db *gorm.DB, in Input) (o Obs) {
 // selectedColumns: with a Select on the chain Count still equals the number of rows Find returns
 // (structs and maps); chains without limit / offset only. Violations are reported through Errs.
 func selectedColumns(db *gorm.DB, in Input, o *Obs) {
+	o.SelCount, o.SelFind, o.SelMaps = -1, -1, -1
 	if len(in.Lops) > 0 {
 		return
 	}
@@ -432,46 +440,48 @@ func selectedColumns(db *gorm.DB, in Input, o *Obs) {
 		o.Errs = append(o.Errs, "sel_maps: "+err.Error())
 		return
 	}
-	if cnt != int64(len(items)) || cnt != int64(len(maps)) || len(items) != len(o.Find) {
-		o.Errs = append(o.Errs, fmt.Sprintf("Select(%v): Count %d, Find %d rows, maps %d rows, Find without Select %d rows", sel, cnt, len(items), len(maps), len(o.Find)))
-	}
+	o.SelCount, o.SelFind, o.SelMaps = cnt, int64(len(items)), int64(len(maps))
 }
 
 // compositeKeys: First / Take / Last into a destination that carries a composite key return that
 // row, and ErrRecordNotFound exactly when no row has the key.
 func compositeKeys(db *gorm.DB, in Input, o *Obs) {
+	o.CKRows, o.CKProbes = [][3]int64{}, [][5]int64{}
 	db.Exec("DELETE FROM cks")
-	want := map[[2]int64]int64{}
+	seen := map[[2]int64]bool{}
 	for _, r := range in.Tbl {
 		a, b := r.ID%2, r.ID/2%3+1 // (zero is no key value)
-		if _, dup := want[[2]int64{a, b}]; dup {
+		if seen[[2]int64{a, b}] {
 			continue
 		}
-		want[[2]int64{a, b}] = r.V
+		seen[[2]int64{a, b}] = true
 		if err := db.Create(&CK{A: []string{"eu", "us"}[a], B: b, V: r.V}).Error; err != nil {
 			o.Errs = append(o.Errs, "ck_insert: "+err.Error())
 			return
 		}
+		o.CKRows = append(o.CKRows, [3]int64{a, b, r.V})
 	}
-	if len(want) == 0 {
+	if len(o.CKRows) == 0 {
 		return
 	}
-	finders := map[string]func(tx *gorm.DB, d *CK) *gorm.DB{
-		"first": func(tx *gorm.DB, d *CK) *gorm.DB { return tx.First(d) },
-		"take":  func(tx *gorm.DB, d *CK) *gorm.DB { return tx.Take(d) },
-		"last":  func(tx *gorm.DB, d *CK) *gorm.DB { return tx.Last(d) },
+	finders := []func(tx *gorm.DB, d *CK) *gorm.DB{
+		func(tx *gorm.DB, d *CK) *gorm.DB { return tx.First(d) },
+		func(tx *gorm.DB, d *CK) *gorm.DB { return tx.Take(d) },
+		func(tx *gorm.DB, d *CK) *gorm.DB { return tx.Last(d) },
 	}
 	for a := int64(0); a < 2; a++ {
 		for b := int64(1); b <= 3; b++ {
-			v, exists := want[[2]int64{a, b}]
-			for _, name := range []string{"first", "take", "last"} {
+			for fi, f := range finders {
 				d := CK{A: []string{"eu", "us"}[a], B: b}
-				r := finders[name](db.Session(&gorm.Session{}), &d)
+				r := f(db.Session(&gorm.Session{}), &d)
 				switch {
-				case exists && (r.Error != nil || d.V != v || d.B != b):
-					o.Errs = append(o.Errs, fmt.Sprintf("%s(&CK{%s,%d}): got %+v err %v, row has v=%d", name, d.A, b, d, r.Error, v))
-				case !exists && !errors.Is(r.Error, gorm.ErrRecordNotFound):
-					o.Errs = append(o.Errs, fmt.Sprintf("%s(&CK{%s,%d}): no such row, got %+v err %v", name, []string{"eu", "us"}[a], b, d, r.Error))
+				case r.Error == nil && d.B == b && d.A == []string{"eu", "us"}[a]:
+					o.CKProbes = append(o.CKProbes, [5]int64{int64(fi), a, b, 1, d.V})
+				case errors.Is(r.Error, gorm.ErrRecordNotFound):
+					o.CKProbes = append(o.CKProbes, [5]int64{int64(fi), a, b, 0, 0})
+				default:
+					// another row than the one asked for, or another error
+					o.CKProbes = append(o.CKProbes, [5]int64{int64(fi), a, b, 2, d.V})
 				}
 			}
 		}
@@ -533,7 +543,12 @@ func term(in Input, o Obs) string {
 		lib.ListOf(o.Batches, gRows), lib.Z(o.BatchesRA),
 		gRows(o.Ptrs), gRows(o.Array), gORow(o.Single), lib.Z(o.SingleRA), gOZ(o.Prim), lib.Z(o.PrimRA),
 		gRows(o.ScanMaps), lib.Z(o.ScanMapsRA), gRows(o.RowsMaps), gORow(o.FirstMap), gORow(o.LastMap), gORow(o.TakeMap),
-		lib.Z(int64(len(o.Errs))))
+		lib.Z(int64(len(o.Errs))),
+		lib.Z(o.SelCount), lib.Z(o.SelFind), lib.Z(o.SelMaps),
+		lib.ListOf(o.CKRows, func(r [3]int64) string { return lib.Pair(lib.Pair(lib.Z(r[0]), lib.Z(r[1])), lib.Z(r[2])) }),
+		lib.ListOf(o.CKProbes, func(p [5]int64) string {
+			return lib.Pair(lib.Pair(lib.Z(p[0]), lib.Pair(lib.Z(p[1]), lib.Z(p[2]))), lib.Pair(lib.Z(p[3]), lib.Z(p[4])))
+		}))
 }
 
 // ---- generation ----
